@@ -660,6 +660,9 @@ def queries(tier):
             % (n, "text field" if kind == "T" else "file part", size, tmin, n + 1,
                "%d..%d symbolic" % (n - 2, n + 1) if limited else "None"),
             200 if not T else 600, labels, "wsgi/multipart", {"kind": kind, "size": size})
+    # the configuration dimension: the same effective settings reached through app.setup / two setup calls
+    from vf import appconfigs
+    out += appconfigs.variants(list(out), ["setup", "setup-twice"], lambda q: q.qid in ("wsgi/raw/cl4", "wsgi/urlencoded/chunked", "wsgi/multipart/F4/limited", "wsgi/raw/chunked3-2"))
     return out
 
 
